@@ -155,3 +155,22 @@ Theorem C15_page_debug_info_structure :
     events (render page_debug_info env1) = events (render page_debug_info env2).
 Proof. exact (noninterference page_debug_info page_debug_info_guarded). Qed.
 Print Assumptions C15_page_debug_info_structure.
+
+(* ---- T-tie of the escape primitive: HTML_ESCAPE_TABLE and html_escape of
+   results.py, regenerated by harness/py2v_escape.py (gen/EscapeGen.v) *)
+Require Import PW.lib.PyEscape PW.gen.EscapeGen PW.proofs.EscapeGenEq.
+
+(* the table of the source = the table of the model (same items, same order;
+   the keys are distinct, so the order carries no meaning) *)
+Theorem C15_generated_escape_table_is_model :
+  gen_html_escape_table = escape_table /\
+  forall c, py_dict_get_d gen_html_escape_table c [c] = esc1 c.
+Proof. exact (conj gen_escape_table_eq gen_escape_lookup_eq). Qed.
+Print Assumptions C15_generated_escape_table_is_model.
+
+(* ''.join(HTML_ESCAPE_TABLE.get(c, c) for c in text) = the model's
+   html_escape, for every text *)
+Theorem C15_generated_html_escape_is_model :
+  forall text, gen_html_escape text = html_escape text.
+Proof. exact gen_html_escape_eq. Qed.
+Print Assumptions C15_generated_html_escape_is_model.
